@@ -341,6 +341,18 @@ def check(run):
         tensor_case(run, specs, env, rng.choice(sp), np.zeros(3), "signed-permutation")
         angmom_shift_case(run, specs, np.array([0.5, -1.25, 2.0]))
         setter_motion_case(run, rng, cayley(rng), np.array([core.snap(rng.uniform(-2, 2), 8) for _ in range(3)]))
+    # shells without any diffuse primitive (smallest exponent 10-60), points close to their centres, the whole system moved 10-25 bohr
+    # away from the coordinate origin
+    for k in range(2 if quick else 8):
+        cs = []
+        specs = [rand_shell(rng, (i + k) % 3, cs, nprim=rng.randint(1, 2), nseg=1, sph=bool((i + k) % 2), exp_lo=10.0, exp_hi=60.0) for i in range(2)]
+        env = pf.default_env(rng, specs, npts=4)
+        env.points = np.array([np.array(specs[i % 2].center) + np.array([core.snap(rng.uniform(-0.25, 0.25), 10) for _ in range(3)]) for i in range(4)])
+        t = np.array([[15.0, -12.0, 18.0], [-9.0, 21.0, 7.0]][k % 2])
+        motion_case(run, specs, env, np.eye(3) if k % 2 else cayley(rng), t, "translation" if k % 2 else "orthogonal+translation",
+                    ["evaluate_basis", "overlap", "kinetic", "point_charge", "moment"])
+        tensor_case(run, specs, env, cayley(rng), t, "orthogonal+translation")
+        run.count("tight shells moved 10-25 bohr from the origin")
     for l in range(5 if quick else 8):
         right_matrix_case(run, rng, l)
     # repulsion integrals: angular momenta fixed so that every axis branch of the electron-transfer and horizontal recursions is
